@@ -94,6 +94,7 @@ type stub struct {
 	chunks    [][]byte
 	yields    []int
 	end       string // eof | err | hang
+	together  bool   // the last chunk is returned by the same Read as the terminating eof / error (as io.Reader allows)
 	failWrite int    // the k-th Write (0-based) and all later ones fail; -1 never
 	writes    int
 	closed    chan struct{}
@@ -122,9 +123,22 @@ func (s *stub) Read(p []byte) (int, error) {
 		} else {
 			s.chunks = s.chunks[1:]
 		}
+		last := len(s.chunks) == 0
+		end, together := s.end, s.together
+		if last && together && (end == "eof" || end == "err") {
+			s.end = "hang" // the ending has been delivered with the data; later Reads only see the stream closed
+		}
 		s.mu.Unlock()
 		perturb(y)
 		s.run.log("awrite", s.side, p[:n], "ok")
+		if last && together && end == "eof" {
+			s.run.log("aclose", s.side, nil, "eof")
+			return n, io.EOF
+		}
+		if last && together && end == "err" {
+			s.run.log("aclose", s.side, nil, "err")
+			return n, errBoom
+		}
 		return n, nil
 	}
 	end := s.end
@@ -347,6 +361,7 @@ func runBiScenario(id, run int) bool {
 			}
 		}
 		st1, st2 := mkStub(1, r.Intn(40), e1, f1), mkStub(2, r.Intn(40), e2, f2)
+		st1.together, st2.together = r.Intn(3) == 0, r.Intn(3) == 0
 		s1, s2 = st1, st2
 		meta["ends"] = []any{e1, e2, f1, f2}
 	case "ownerclose": // the owner of stream `first` closes the very stream it handed to Pipe (session aborted); the far ends stay idle
